@@ -60,7 +60,8 @@ Inductive op :=
 Section PM.
   Variable m : str -> str -> option (list str).   (* regexp oracle, as in C14 *)
   Variable mask : list bool.                       (* which fields pathConfCanBeUpdated copies *)
-  Variable fixed : bool.   (* false: the code as found; true: after the fix: commit (groups compared before a move) *)
+  Variable fixed : bool.   (* false: the code as found (a moved path keeps its old groups); true: after the fix: commit
+                              (reloadConfAndMatches hands the new groups to the path) *)
 
   Definition upd := can_update_mask mask.
 
@@ -85,14 +86,13 @@ Section PM.
     | Found k c g =>
         if negb (str_eqb k (p_confName p)) then
           (* path now belongs to a different config *)
-          if fixed && negb (strs_eqb g (p_matches p)) then PClose
-          else match lookup old (p_confName p) with
-               | None => PCrash
-               | Some oc =>
-                   if upd oc c
-                   then PKeep (LP (p_name p) k c (p_matches p) (p_gen p))   (* matches are NOT replaced *)
-                   else PClose
-               end
+          match lookup old (p_confName p) with
+          | None => PCrash
+          | Some oc =>
+              if upd oc c
+              then PKeep (LP (p_name p) k c (if fixed then g else p_matches p) (p_gen p))
+              else PClose
+          end
         else if in_recreate old nc k then PClose
         else if in_reload old nc k then PKeep (LP (p_name p) (p_confName p) c (p_matches p) (p_gen p))
         else PKeep p
@@ -121,6 +121,7 @@ Section PM.
 
   Definition create (s : state) (n : str) : state :=
     if has_path (st_paths s) n then s
+    else if negb (valid_name n) then s   (* pathManager.findPathConf validates the requested name first *)
     else match find m (st_confs s) n with
          | Found k c g => ST (st_confs s) (st_paths s ++ [LP n k c g (st_next s)]) (st_next s + 1) (st_crashed s)
          | _ => s
